@@ -34,10 +34,12 @@ LEVEL_TEXT = ('Lean theorems for every CSS parity-check matrix (pure-X / pure-Z 
               'and loop scatters, decode_plane, minimum-weight choice, BP-OSD call) is modelled on the all-sizes '
               'lattice models; theorems for every lattice size, syndrome and solver answer: a returned correction is '
               'binary of length 2n; the XCube parity-check matrix is CSS; the Z half is the ldpc answer and (ldpc '
-              'contract) reproduces the X-row syndrome; the qubit_index keys of the loop scatter all exist iff '
-              'Lx <= Ly <= Lz, and on every lattice with 2 <= Lx <= Ly <= Lz decode raises no KeyError at all (every '
-              'dict look-up finds its key, for every syndrome vector, solver answer and list(set) order; '
-              'kernel-checked KeyError witness on 3x2x2); a kernel-checked counterexample shows the cube (Z-row) syndrome is not reproduced in general (2x2x3). '
+              'contract) reproduces the X-row syndrome; on every lattice with all sides >= 2 (ordered or not) decode '
+              'raises no KeyError (every dict look-up finds its key, for every syndrome vector, solver answer and '
+              'list(set) order that keeps the elements); regression theorems for the code before 869642d '
+              '(decode_plane always given (Lx, Ly)): its loop-scatter keys all exist iff Lx <= Ly <= Lz, '
+              'kernel-evaluated KeyError (1,4,0) on 3x2x2 and wrong cube syndrome on 2x2x3, both inputs decoded '
+              'to the error itself by the repaired model. '
               'MemoryBeliefPropagationDecoder: its integer/boolean glue is modelled with the float message passing '
               'as a parameter; for every matrix, syndrome and messages: with max_bp_iter >= 1 the result is binary '
               'of length 2n and is exactly the vector tested by the last executed iteration (the final reverse and '
@@ -52,8 +54,9 @@ LEVEL_NOTE = ('trusted (modelled, not verified): PyMatching Matching.decode (ret
               'modelled; the hard decisions enter as a parameter and are read off the vectors handed to '
               'measure_syndrome in the correspondence. XCubeMatchingDecoder: modelled completely and compared on '
               'every run (every sliced syndrome, solver answer, helper result, scatter vector, result or KeyError '
-              'key, all lattices in {2,3}^3 and a few with a side of 4); absence of KeyError is proved for '
-              'ascending lattices; not proved: termination of the while walk of get_matched_pairs (a cycle in a '
+              'key, all lattices in {2,3}^3 and a few with a side of 4); not proved: that the cube (Z-row) '
+              'syndrome is reproduced (correctness of the projection / loop-filling heuristic; tested by the '
+              'oracle), termination of the while walk of get_matched_pairs (a cycle in a '
               'PyMatching answer would make it run forever; the model reports it as a hang, the harness has a '
               'watchdog), and the theorem does not exclude the non-KeyError exceptions (IndexError on a syndrome '
               'of the wrong length, numpy shape errors on solver answers of the wrong length); list(set) order is '
